@@ -1,0 +1,30 @@
+//go:build verif
+
+package resolve
+
+// VerifRegistrySizes reports the sizes of the subscription registry (build tag verif only):
+// triggers, subscriptions by id, connections with at least one subscription.
+func (r *Resolver) VerifRegistrySizes() (triggers, subscriptions, connections int) {
+	r.mu.Lock()
+	defer r.mu.Unlock()
+	return len(r.triggers), len(r.subscriptionsByID), len(r.subscriptionsByConnection)
+}
+
+// verifRemoveFlags encodes the outcome of removeSubscriptionLocked for the "sub.remove" hook:
+// 1 = removed, 2 = this call won the removed-CAS, 4 = trigger became empty, 8 = that trigger was initialized.
+func verifRemoveFlags(res removeResult) uint64 {
+	var f uint64
+	if res.removed > 0 {
+		f |= 1
+	}
+	if len(res.toClose) > 0 {
+		f |= 2
+	}
+	if res.triggerCancel != nil {
+		f |= 4
+		if res.initialized {
+			f |= 8
+		}
+	}
+	return f
+}
